@@ -23,7 +23,10 @@ RULE = ('Case = generated program (free grammar: normal end, terminal phase, ter
         'return value == (outcome is PASS); afterwards test.state is None, the uid is gone from TEST_INSTANCES, the openhtf '
         'logger handler list equals the baseline, re-execution works and yields an equally complete record; the overlapping '
         'call raises InvalidTestStateError and the first run is unaffected.  Non-trivial = non-normal exit path, or >=1 raising '
-        'callback, or a repeated/overlapping execute; distinct by canonical case.')
+        'callback, or a repeated/overlapping execute; distinct by canonical case.  Plus (scheduled): 2-3 threads call execute() on '
+        'one Test at the same time, every single preemption at line granularity; each call returns True or raises '
+        'InvalidTestStateError, one complete record per returning call, body invocations of two runs never overlap, the Test is '
+        'clean afterwards (non-trivial there = effective preemption with a refused or second successful call).')
 ASSUMPTIONS = ['Abort is delivered via Test.abort_from_sig_int() from a helper thread started by a phase body (real signal delivery is not exercised here; see C04).']
 
 _BASE = {'threads': None}
@@ -191,12 +194,109 @@ def check(case):
 ABORT_TEMPLATES = ['plain3', 'group', 'subtest', 'start+plain']
 
 
+# ------------------------------------------------------------------ two threads enter execute() of one Test at once
+def check_race(case):
+  """case = {'race': n_threads, 'plan': {yield index: thread choice}}.
+
+  Scheduled: n threads call execute() on the same Test; the phase body blocks for a while (virtual time).  Oracle: every
+  call either returns (True: the test passes) or raises InvalidTestStateError, nothing else; each returning call produced
+  exactly one complete record through the callback, the body ran once per returning call and two invocations of the body
+  never overlap in time; afterwards the Test holds no executor and is not registered for SIGINT.
+  """
+  from vf import vmode  # pylint: disable=g-import-not-at-top
+  from vf import vsched as V  # pylint: disable=g-import-not-at-top
+  import threading as real_threading  # pylint: disable=g-import-not-at-top
+  r = CaseResult()
+  vmode.setup()
+  V.monitor_lines(vmode.executor_code_objects())
+  plan_ = {int(k): v for k, v in (case.get('plan') or {}).items()}
+  n = case['race']
+
+  def fn(s):
+    htf = ohtf.reset_case(cancel_timeout_s=0.05, plug_teardown_timeout_s=0.05)
+    vmode.quiet_logging()
+    log = []
+
+    def body(test):
+      log.append(('body-start', s.k))
+      s.sleep(2.0)
+      log.append(('body-end', s.k))
+
+    test = htf.Test(body)
+    recs = []
+    test.add_output_callbacks(recs.append)
+    results = [None] * n
+
+    def racer(i):
+      try:
+        results[i] = ('returned', test.execute(test_start=lambda: 'dut'))
+      except BaseException as e:  # pylint: disable=broad-except
+        results[i] = ('raised', type(e).__name__, repr(e)[:200])
+
+    ths = []
+    for i in range(n):
+      t = real_threading.Thread(target=racer, args=(i,), name='racer%d' % i)
+      t.daemon = True
+      t.start()
+      ths.append(t)
+    for t in ths:
+      t.join()
+    incomplete = []
+    for rec in recs:
+      incomplete += completeness(rec, default_dut='dut')
+    return {'results': results, 'log': log, 'n_recs': len(recs), 'distinct_recs': len({id(x) for x in recs}), 'incomplete': incomplete,
+            'executor': getattr(test, '_executor', None) is not None, 'registered': len(htf.Test.TEST_INSTANCES)}
+
+  s = V.Scheduler(plan=plan_, time_limit=1e5, max_steps=200000)
+  res, exc = s.run(lambda: fn(s), watchdog_s=20.0)
+  tag = 'race=%d plan=%r' % (n, case.get('plan'))
+  if s.failure is not None:
+    if s.failure[0] in ('deadlock', 'steplimit'):
+      r.bad('C09/race/hang', '%s: %s' % (tag, s.failure[1][:400]))
+      return r, s
+    raise RuntimeError('scheduler failure %r' % (s.failure,))
+  if exc is not None:
+    raise exc
+  results = res['results']
+  ok = [x for x in results if x and x[0] == 'returned']
+  refused = [x for x in results if x and x[0] == 'raised' and x[1] == 'InvalidTestStateError']
+  other = [x for x in results if x and x not in ok and x not in refused]
+  if other:
+    r.bad('C09/race/execute-raised/%s' % other[0][1], '%s: results %r' % (tag, results))
+  elif not ok:
+    r.bad('C09/race/every-call-refused', '%s: results %r' % (tag, results))
+  else:
+    if any(x[1] is not True for x in ok):
+      r.bad('C09/race/return-value', '%s: results %r' % (tag, results))
+    starts = [e for e in res['log'] if e[0] == 'body-start']
+    if len(starts) != len(ok) or res['n_recs'] != len(ok) or res['distinct_recs'] != len(ok):
+      r.bad('C09/race/runs-vs-records', '%s: %d calls returned, body ran %d times, callback got %d records (%d distinct)' % (
+          tag, len(ok), len(starts), res['n_recs'], res['distinct_recs']))
+    depth = 0
+    for e in res['log']:
+      depth += 1 if e[0] == 'body-start' else -1
+      if depth > 1:
+        r.bad('C09/race/overlapping-runs-not-refused', '%s: two runs of the same Test were inside the phase body at once; results %r log %r' % (tag, results, res['log']))
+        break
+  if res['incomplete']:
+    r.bad('C09/race/' + res['incomplete'][0][0].replace('C09/', ''), '%s: %s' % (tag, res['incomplete'][0][1]))
+  if res['executor'] or res['registered']:
+    r.bad('C09/race/not-cleaned-up', '%s: executor still set=%s, TEST_INSTANCES=%d; results %r' % (tag, res['executor'], res['registered'], results))
+  r.nontrivial = bool(s.effective_preemptions) and bool(refused or len(ok) > 1)
+  r.classes = ['race:%d' % n, 'refused:%d' % len(refused), 'returned:%d' % len(ok), 'preemptions:%d' % min(len(s.effective_preemptions), 3)]
+  return r, s
+
+
 def plan(tier, seed):
   n = 300 if tier == 'quick' else 6000
   jobs = [{'kind': 'hyp', 'name': 'hyp%d' % i, 'hseed': seed * 1000 + i, 'n': n} for i in range(16)]
   # the same completeness predicate with an abort injected at every yield point of a scheduled run (engine of C04)
   for t in ABORT_TEMPLATES:
     jobs.append({'kind': 'abort-sweep', 'name': 'abort.%s' % t, 'template': t, 'stride': 4 if tier == 'quick' else 1, 'offset': seed % 4 if tier == 'quick' else 0})
+  for nthreads, nsh in ((2, 12), (3, 4)) if tier == 'quick' else ((2, 12), (3, 12)):
+    for sh in range(nsh):
+      jobs.append({'kind': 'race', 'name': 'race%d.%d' % (nthreads, sh), 'race': nthreads, 'shard': sh, 'nshards': nsh,
+                   'stride': 1 if (nthreads == 2 or tier != 'quick') else 3, 'offset': seed % 3})
   return jobs
 
 
@@ -205,6 +305,23 @@ def run_job(job, acct):
   if job['kind'] == '_regress':
     from vf import runner  # pylint: disable=g-import-not-at-top
     runner.run_regress(sys.modules[__name__], job, acct)
+    return
+  if job['kind'] == 'race':
+    base = {'race': job['race'], 'plan': {}}
+    r0, s0 = check_race(base)
+    i = 0
+    for k in range(job['offset'] if job['stride'] > 1 else 0, s0.k + 2, job['stride']):
+      for c in range(job['race']):
+        i += 1
+        if i % job['nshards'] != job['shard']:
+          continue
+        case = dict(base, plan={str(k): c})
+        r, _ = check_race(case)
+        acct.case(case, r.nontrivial, r.classes)
+        for sig, detail in r.violations:
+          (acct.known if sig in known else acct.violation)(sig, case, detail)
+    if job['shard'] == 0 and job['stride'] == 1:
+      acct.exhaustive_parts.append('%d threads racing into execute(): every single preemption over %d yield points' % (job['race'], s0.k + 2))
     return
   if job['kind'] == 'abort-sweep':
     from vf.props import c04  # pylint: disable=g-import-not-at-top
@@ -224,6 +341,8 @@ def run_job(job, acct):
 
 
 def replay(case):
+  if 'race' in case:
+    return check_race(case)[0].violations
   if 'abort_sweep' in case:
     from vf.props import c04  # pylint: disable=g-import-not-at-top
     c04.setup_lines()
